@@ -17,7 +17,7 @@ RULE = ("(1) add_mlcl_constraint outcome vs a union-find reference validator: ex
 ASSUMPTIONS = ["the consistent / contradictory verdict follows the property text: no self pair, no cannot-link pair "
                "inside a connected component of the must-link graph"]
 EVAL_COUNTER = "evaluations"
-REQUIRED = {"quick": {"validations": 3000, "accepted_ok": 500, "rejected_ok": 500, "malformed_rejected": 19,
+REQUIRED = {"quick": {"validations": 3000, "accepted_ok": 500, "rejected_ok": 500, "malformed_rejected": 19, "chain_validations": 300,
                       "batches_checked": 300, "batches_with_pairs": 80, "batches_partial_pairs": 20},
             "thorough": {"validations": 40000, "batches_checked": 8000}}
 SHARD_TIMEOUT = {"quick": 900, "thorough": 5400}
@@ -29,6 +29,7 @@ def cases(tier, seed):
     out = [{"kind": "exhaustive", "seed": seed, "relabel": r, "flip": f} for r in range(len(RELABELS)) for f in (0, 1)]
     nr, nf = (40, 96) if tier == "quick" else (1500, 1600)
     out += [{"kind": "random", "seed": seed, "i": i} for i in range(nr)]
+    out += [{"kind": "chains", "seed": seed, "i": i} for i in range(16 if tier == "quick" else 400)]
     out += [{"kind": "malformed", "seed": seed}]
     out += [{"kind": "fit", "seed": seed, "i": i} for i in range(nf)]
     return out
@@ -252,6 +253,41 @@ def run_case(case, ctx, st):
             if rng.random() < 0.1:
                 cl.append((ids[0], ids[0]))         # self pair
             ctx.case = dict(case, ml=ml, cl=cl)
+            _validate(ctx, ml, cl, as_array=bool(rng.random() < 0.5))
+    elif case["kind"] == "chains":
+        # long must-link structures: paths, cycles and trees of 3..40 samples (components whose diameter is large), with a
+        # cannot-link pair between two far-apart members (contradiction), between two components (consistent), and the
+        # must-link pairs given in shuffled order and random orientation
+        rng = gen.rng_for(case["seed"], ID, "chains", case["i"])
+        for _ in range(30):
+            m = int(rng.integers(3, 41))
+            ids = [int(x) for x in rng.choice(500, size=m + 6, replace=False)]
+            comp, other = ids[:m], ids[m:]
+            shape = ["path", "cycle", "tree", "two-paths"][int(rng.integers(0, 4))]
+            if shape == "path":
+                ml = [(comp[a], comp[a + 1]) for a in range(m - 1)]
+            elif shape == "cycle":
+                ml = [(comp[a], comp[(a + 1) % m]) for a in range(m)]
+            elif shape == "tree":
+                ml = [(comp[int(rng.integers(0, a))], comp[a]) for a in range(1, m)]
+            else:
+                h = max(2, m // 2)
+                ml = [(comp[a], comp[a + 1]) for a in range(h - 1)] + [(comp[a], comp[a + 1]) for a in range(h, m - 1)]
+            ml += [(other[0], other[1]), (other[2], other[3])]
+            ml = [ml[int(k)] for k in rng.permutation(len(ml))]
+            ml = [(a, b) if rng.random() < 0.5 else (b, a) for a, b in ml]
+            far = (comp[0], comp[-1])                       # ends of the path / far members of the component
+            r = rng.random()
+            if r < 0.4:
+                cl = [far]
+            elif r < 0.6:
+                cl = [(comp[int(rng.integers(0, m))], other[0]), (other[1], other[2])]        # between components: consistent
+            elif r < 0.8:
+                cl = [(other[4], other[5]), (comp[int(rng.integers(0, m))], other[4]), far]
+            else:
+                cl = [(other[0], other[1])]                                                     # inside the small component
+            ctx.count("chain_validations")
+            ctx.case = dict(case, ml=ml, cl=cl, shape=shape)
             _validate(ctx, ml, cl, as_array=bool(rng.random() < 0.5))
     elif case["kind"] == "malformed":
         from gemclus import add_mlcl_constraint
